@@ -1,5 +1,6 @@
 // C08 correspondence harness: real searchers obtained from query.Searcher over multi-segment
-// scorch readers (in memory and on disk, with updates and deletions) and over upsidedown are
+// scorch readers (in memory and on disk, with updates and deletions) and over upsidedown (gtreap,
+// boltdb, moss; external ids of varying length, which are upsidedown's internal ids) are
 // driven by forward Next/Advance programs; the ids they return are compared, inside Coq, with the
 // machines of coq/Cursor/Machines.v and the cursor spec of coq/Cursor/Cursor.v.
 //
@@ -10,11 +11,13 @@
 package main
 
 import (
+	"bytes"
 	"context"
 	"crypto/sha1"
 	"encoding/hex"
 	"encoding/json"
 	"fmt"
+	"math/big"
 	"os"
 	"sort"
 	"strings"
@@ -24,7 +27,9 @@ import (
 	"github.com/blevesearch/bleve/v2"
 	"github.com/blevesearch/bleve/v2/index/scorch"
 	"github.com/blevesearch/bleve/v2/index/upsidedown"
+	"github.com/blevesearch/bleve/v2/index/upsidedown/store/boltdb"
 	"github.com/blevesearch/bleve/v2/index/upsidedown/store/gtreap"
+	"github.com/blevesearch/bleve/v2/index/upsidedown/store/moss"
 	"github.com/blevesearch/bleve/v2/mapping"
 	"github.com/blevesearch/bleve/v2/search"
 	"github.com/blevesearch/bleve/v2/search/query"
@@ -47,7 +52,13 @@ type DocOp struct {
 }
 
 type Corpus struct {
-	Engine  string    `json:"engine"` // scorch-mem | scorch-disk | upsidedown
+	Engine string `json:"engine"` // scorch-mem | scorch-disk | upsidedown
+	// upsidedown: the KV store under it: "" = gtreap (in memory) | boltdb (on disk) | moss
+	KV string `json:"kv,omitempty"`
+	// external ids: IDs[k] is the hex form of the external id of document number k (ids of
+	// different lengths, ids that are prefixes of each other, ids with 0x00 / high bytes; never
+	// 0xff, which upsidedown's row formats use as a separator).  Empty: "d%03d".
+	IDs     []string  `json:"ids,omitempty"`
 	Batches [][]DocOp `json:"batches"`
 	// scorch-disk: after this many batches wait for the persister and force a merge (merged
 	// segments use zapx's 1-hit encoding for single-document terms); 0 = never
@@ -55,7 +66,7 @@ type Corpus struct {
 }
 
 type Q struct {
-	K         string  `json:"k"` // term conj disj bool docids all none | prefix fuzzy regexp wildcard termrange phrase match numrange geobox geodist
+	K         string  `json:"k"` // term conj disj bool docids all none | prefix fuzzy regexp wildcard termrange phrase mphrase match numrange geobox geodist
 	Term      int     `json:"term,omitempty"`
 	Min       int     `json:"min,omitempty"`
 	Kids      []*Q    `json:"kids,omitempty"`
@@ -68,17 +79,26 @@ type Q struct {
 	Str       string  `json:"str,omitempty"`
 	Lo        float64 `json:"lo,omitempty"`
 	Hi        float64 `json:"hi,omitempty"`
+	// mphrase: per phrase position the alternative words (indices into words)
+	Slots [][]int `json:"slots,omitempty"`
 }
 
 // one call of a program.  Advance targets are resolved against what the searcher returned so
 // far: lb = max(last returned id + 1, last target, 0).
-//   M=0 lb+A | M=1 a candidate id >= lb | M=2 candidate+1 | M=3 candidate-1 (clipped to lb)
-//   M=4 a segment offset (or offset-1) >= lb | M=5 absolute A (may be backward; reader kinds only)
-//   M=6 beyond the greatest id (+A)
+//
+//	M=0 lb+A | M=1 a candidate id >= lb | M=2 candidate+1 | M=3 candidate-1 (clipped to lb)
+//	M=4 a segment offset (or offset-1) >= lb | M=5 absolute A (may be backward; reader kinds only)
+//	M=6 beyond the greatest id (+A)
+//	M=7 an id out of the L-th list of "points of interest" (mod their number): the Next-only
+//	    enumerations of real searchers for the query itself (list 0), for each of its subtrees,
+//	    and for the terms / the all-terms candidate conjunction of phrase and match leaves.
+//	    A=0 the first entry >= lb (the next match / look-ahead candidate after the current
+//	    position), A=1 the entry after that, A=2 the last entry, A=3 the first entry (when >= lb)
 type Op struct {
 	K string `json:"k"` // "N" | "A"
 	M int    `json:"m,omitempty"`
 	A int    `json:"a,omitempty"`
+	L int    `json:"l,omitempty"`
 }
 
 type In struct {
@@ -106,6 +126,59 @@ type built struct {
 	engine string
 	err    error
 	ready  chan struct{}
+	ids    [][]byte // external id of document number k (nil: "d%03d")
+	// upsidedown with an id table: every byte string the programs may mention (the external ids
+	// and byte strings between / before / after them), sorted with bytes.Compare.  The numeric id
+	// handed to Coq is the index in this table; Coq re-checks that the table is strictly ascending.
+	keys [][]byte
+}
+
+func (b *built) name(k int) string {
+	if k >= 0 && k < len(b.ids) {
+		return string(b.ids[k])
+	}
+	return docID(k)
+}
+
+// keyTable: the external ids plus, around each id that some batch of the corpus mentions, its
+// immediate successor (id+0x00, also a longer string with the id as a proper prefix), its longest
+// proper prefix, and a string just below it with 0xff bytes (last byte - 1, then 0xff 0xff); the
+// empty string; two strings above everything.
+func keyTable(ids [][]byte, present map[int]bool) [][]byte {
+	var ks [][]byte
+	add := func(b []byte) { ks = append(ks, append([]byte{}, b...)) }
+	add(nil)
+	top := []byte{0xff, 0xff, 0xff, 0xff, 0xff, 0xff}
+	for _, id := range ids {
+		if len(id) >= len(top) {
+			top = append(bytes.Repeat([]byte{0xff}, len(id)), 0xff)
+		}
+	}
+	add(top)
+	add(append(append([]byte{}, top...), 0x00))
+	for k, id := range ids {
+		add(id)
+		if !present[k] {
+			continue
+		}
+		add(append(append([]byte{}, id...), 0x00))
+		if len(id) > 1 {
+			add(id[:len(id)-1])
+		}
+		if n := len(id); n > 0 && id[n-1] > 0 {
+			p := append([]byte{}, id...)
+			p[n-1]--
+			add(append(p, 0xff, 0xff))
+		}
+	}
+	sort.Slice(ks, func(i, j int) bool { return bytes.Compare(ks[i], ks[j]) < 0 })
+	out := ks[:0]
+	for i, k := range ks {
+		if i == 0 || !bytes.Equal(k, ks[i-1]) {
+			out = append(out, k)
+		}
+	}
+	return out
 }
 
 var (
@@ -204,9 +277,34 @@ func closeAll() {
 func (b *built) build(c Corpus, seq int) error {
 	b.m = buildMapping()
 	var err error
+	for _, h := range c.IDs {
+		id, herr := hex.DecodeString(h)
+		if herr != nil || len(id) == 0 {
+			return fmt.Errorf("bad id table entry %q", h)
+		}
+		b.ids = append(b.ids, id)
+	}
+	if c.Engine == "upsidedown" && len(b.ids) > 0 {
+		present := map[int]bool{}
+		for _, batch := range c.Batches {
+			for _, op := range batch {
+				present[op.ID] = true
+			}
+		}
+		b.keys = keyTable(b.ids, present)
+	}
 	switch c.Engine {
 	case "upsidedown":
-		b.idx, err = bleve.NewUsing("", b.m, upsidedown.Name, gtreap.Name, nil)
+		switch c.KV {
+		case "boltdb":
+			b.path = fmt.Sprintf("/tmp/vh_c08_%d_%d", os.Getpid(), seq)
+			_ = os.RemoveAll(b.path)
+			b.idx, err = bleve.NewUsing(b.path, b.m, upsidedown.Name, boltdb.Name, nil)
+		case "moss":
+			b.idx, err = bleve.NewUsing("", b.m, upsidedown.Name, moss.Name, nil)
+		default:
+			b.idx, err = bleve.NewUsing("", b.m, upsidedown.Name, gtreap.Name, nil)
+		}
 	case "scorch-disk":
 		b.path = fmt.Sprintf("/tmp/vh_c08_%d_%d", os.Getpid(), seq)
 		_ = os.RemoveAll(b.path)
@@ -222,7 +320,7 @@ func (b *built) build(c Corpus, seq int) error {
 		bt := b.idx.NewBatch()
 		for _, op := range batch {
 			if op.Del {
-				bt.Delete(docID(op.ID))
+				bt.Delete(b.name(op.ID))
 				continue
 			}
 			doc := map[string]interface{}{}
@@ -244,7 +342,7 @@ func (b *built) build(c Corpus, seq int) error {
 			if len(op.G) == 2 {
 				doc["g"] = map[string]interface{}{"lon": op.G[0], "lat": op.G[1]}
 			}
-			if err := bt.Index(docID(op.ID), doc); err != nil {
+			if err := bt.Index(b.name(op.ID), doc); err != nil {
 				return err
 			}
 		}
@@ -302,6 +400,13 @@ func forceMerge(idx bleve.Index) {
 // ---------------------------------------------------------------- ids
 
 func (b *built) idOf(d index.IndexInternalID) (int64, error) {
+	if b.keys != nil {
+		i := sort.Search(len(b.keys), func(i int) bool { return bytes.Compare(b.keys[i], d) >= 0 })
+		if i == len(b.keys) || !bytes.Equal(b.keys[i], d) {
+			return 0, fmt.Errorf("internal id %q is not in the key table", []byte(d))
+		}
+		return int64(i), nil
+	}
 	if b.engine == "upsidedown" {
 		var k int64
 		if len(d) != 4 || d[0] != 'd' {
@@ -322,6 +427,12 @@ func (b *built) target(k int64) index.IndexInternalID {
 	if k < 0 {
 		k = 0
 	}
+	if b.keys != nil {
+		if k >= int64(len(b.keys)) {
+			k = int64(len(b.keys)) - 1
+		}
+		return index.IndexInternalID(b.keys[k])
+	}
 	if b.engine == "upsidedown" {
 		if k > 999 {
 			k = 999
@@ -339,20 +450,20 @@ func tq(term string) query.Query {
 	return q
 }
 
-func (q *Q) build() query.Query {
+func (q *Q) build(name func(int) string) query.Query {
 	switch q.K {
 	case "term":
 		return tq(vocab[q.Term%len(vocab)])
 	case "conj":
 		qs := make([]query.Query, len(q.Kids))
 		for i, k := range q.Kids {
-			qs[i] = k.build()
+			qs[i] = k.build(name)
 		}
 		return bleve.NewConjunctionQuery(qs...)
 	case "disj":
 		qs := make([]query.Query, len(q.Kids))
 		for i, k := range q.Kids {
-			qs[i] = k.build()
+			qs[i] = k.build(name)
 		}
 		d := bleve.NewDisjunctionQuery(qs...)
 		d.SetMin(float64(q.Min))
@@ -360,25 +471,25 @@ func (q *Q) build() query.Query {
 	case "bool":
 		bq := bleve.NewBooleanQuery()
 		for _, k := range q.Must {
-			bq.AddMust(k.build())
+			bq.AddMust(k.build(name))
 		}
 		for _, k := range q.Should {
-			bq.AddShould(k.build())
+			bq.AddShould(k.build(name))
 		}
 		for _, k := range q.MustNot {
-			bq.AddMustNot(k.build())
+			bq.AddMustNot(k.build(name))
 		}
 		if len(q.Should) > 0 {
 			bq.SetMinShould(float64(q.MinShould))
 		}
 		if q.Filter != nil {
-			bq.AddFilter(q.Filter.build())
+			bq.AddFilter(q.Filter.build(name))
 		}
 		return bq
 	case "docids":
 		ids := make([]string, len(q.IDs))
 		for i, k := range q.IDs {
-			ids[i] = docID(k)
+			ids[i] = name(k)
 		}
 		return bleve.NewDocIDQuery(ids)
 	case "all":
@@ -410,6 +521,16 @@ func (q *Q) build() query.Query {
 		p := bleve.NewMatchPhraseQuery(q.Str)
 		p.SetField("t")
 		return p
+	case "mphrase":
+		var slots [][]string
+		for _, sl := range q.Slots {
+			var ws []string
+			for _, w := range sl {
+				ws = append(ws, words[w%len(words)])
+			}
+			slots = append(slots, ws)
+		}
+		return query.NewMultiPhraseQuery(slots, "t")
 	case "match":
 		p := bleve.NewMatchQuery(q.Str)
 		p.SetField("t")
@@ -499,7 +620,7 @@ func (d *desc) leaf(q query.Query) (cf.T, error) {
 // concrete searcher types; anything that is not a modelled compound becomes a Leaf holding its
 // own Next-only enumeration.
 func (d *desc) describe(q *Q) (cf.T, error) {
-	bq := q.build()
+	bq := q.build(d.c.b.name)
 	s, _, err := d.c.searcher(bq)
 	if err != nil {
 		return "", err
@@ -562,7 +683,7 @@ func (d *desc) describe(q *Q) (cf.T, error) {
 				return "", false, 0, nil
 			}
 			sub := &Q{K: k, Kids: qs, Min: min}
-			ss, _, err := d.c.searcher(sub.build())
+			ss, _, err := d.c.searcher(sub.build(d.c.b.name))
 			if err != nil {
 				return "", false, 0, err
 			}
@@ -597,6 +718,18 @@ func (d *desc) describe(q *Q) (cf.T, error) {
 		if mok && sok && smin != 0 {
 			d.classes["boolean-should-advance"] = true
 		}
+		// a should clause the query package replaced by one opaque searcher that still reports
+		// Min() = 1 (score "none": a term-only disjunction with min 1 becomes a TermSearcher over
+		// the OR-ed bitmaps and keeps its minimum).  A Leaf has Min() = 0 in the model, so it is
+		// described as what it stands for: a disjunction with min 1 over that one posting list.
+		// Any other opaque should clause with a non-zero minimum makes the whole node a leaf.
+		if sok && smin != 0 && strings.HasPrefix(string(st), "(Leaf") {
+			if smin != 1 {
+				return d.leaf(bq)
+			}
+			st = cf.App("DisjS", cf.Int(1), cf.List([]cf.T{st}))
+			d.types["should:opaque-with-min-1"] = true
+		}
 		return cf.App("Bool", "false", optTree(mt, mok), optTree(st, sok), optTree(nt, nok)), nil
 	case q.K == "bool" && q.Filter == nil && len(q.Must) > 0 && len(q.Should) == 0 && len(q.MustNot) == 0:
 		return d.describe(&Q{K: "conj", Kids: q.Must})
@@ -610,8 +743,98 @@ func (d *desc) describe(q *Q) (cf.T, error) {
 
 type runEnv struct {
 	b     *built
-	cands []int64 // sorted candidate ids (all leaf ids)
+	cands []int64 // sorted candidate ids (all leaf ids and all points of interest)
 	maxID int64
+	lists [][]int64      // points of interest (non-empty, each ascending); lists[0]: the query's own matches when it has any
+	root  map[int64]bool // the ids of the query's own Next-only enumeration
+}
+
+// poi collects the "points of interest" for Advance targets: the Next-only enumeration of a real
+// searcher for q and, recursively, for each of its subtrees; for phrase / multi-phrase / match
+// leaves also the enumeration of every term and of the conjunction of all phrase positions (the
+// phrase searcher's pre-condition searcher, whose next hit is its look-ahead candidate).  All
+// lists are produced by real searchers; they only steer where programs aim, never what is expected.
+func (c sctx) poi(q *Q, add func([]int64)) error {
+	l, _, _, err := c.enumerate(q.build(c.b.name))
+	if err != nil {
+		return err
+	}
+	add(l)
+	sub := func(qs ...*Q) error {
+		for _, k := range qs {
+			if k == nil {
+				continue
+			}
+			if err := c.poi(k, add); err != nil {
+				return err
+			}
+		}
+		return nil
+	}
+	var slots [][]string
+	switch q.K {
+	case "conj", "disj":
+		return sub(q.Kids...)
+	case "bool":
+		if err := sub(q.Must...); err != nil {
+			return err
+		}
+		if err := sub(q.Should...); err != nil {
+			return err
+		}
+		if err := sub(q.MustNot...); err != nil {
+			return err
+		}
+		return sub(q.Filter)
+	case "phrase", "match":
+		for _, w := range strings.Fields(q.Str) {
+			slots = append(slots, []string{w})
+		}
+	case "mphrase":
+		for _, sl := range q.Slots {
+			var ws []string
+			for _, w := range sl {
+				ws = append(ws, words[w%len(words)])
+			}
+			slots = append(slots, ws)
+		}
+	default:
+		return nil
+	}
+	wt := func(w string) query.Query {
+		t := bleve.NewTermQuery(w)
+		t.SetField("t")
+		return t
+	}
+	var all []query.Query
+	seen := map[string]bool{}
+	for _, sl := range slots {
+		var alts []query.Query
+		for _, w := range sl {
+			alts = append(alts, wt(w))
+			if !seen[w] {
+				seen[w] = true
+				l, _, _, err := c.enumerate(wt(w))
+				if err != nil {
+					return err
+				}
+				add(l)
+			}
+		}
+		if len(alts) == 1 {
+			all = append(all, alts[0])
+		} else if len(alts) > 1 {
+			all = append(all, bleve.NewDisjunctionQuery(alts...))
+		}
+	}
+	if len(all) > 0 {
+		l, _, _, err := c.enumerate(bleve.NewConjunctionQuery(all...))
+		if err != nil {
+			return err
+		}
+		add(l)
+	}
+	return nil
 }
 
 func (e *runEnv) resolve(op Op, last, wm int64) int64 {
@@ -666,8 +889,39 @@ func (e *runEnv) resolve(op Op, last, wm int64) int64 {
 		if t >= lb {
 			return t
 		}
+	case 7:
+		if len(e.lists) == 0 {
+			break
+		}
+		l := e.lists[op.L%len(e.lists)]
+		i := sort.Search(len(l), func(i int) bool { return l[i] >= lb })
+		if i == len(l) {
+			break
+		}
+		switch ((op.A % 4) + 4) % 4 {
+		case 1:
+			if i+1 < len(l) {
+				return l[i+1]
+			}
+		case 2:
+			return l[len(l)-1]
+		case 3:
+			if l[0] >= lb {
+				return l[0]
+			}
+		}
+		return l[i]
 	}
 	return lb + a%7
+}
+
+// clip keeps a target inside the id space the case can name (the key table of a keyed index
+// ends with two strings above every document id)
+func (b *built) clip(t int64) int64 {
+	if b.keys != nil && t >= int64(len(b.keys)) {
+		return int64(len(b.keys)) - 1
+	}
+	return t
 }
 
 // run executes prog on a fresh searcher for q; returns the Coq program and result lists.
@@ -692,8 +946,16 @@ func (e *runEnv) run(c sctx, q query.Query, prog []Op) (cf.T, cf.T, []string, in
 					hist = append(hist, "prog:next-after-exhaustion")
 				}
 			} else {
-				t := e.resolve(op, last, wm)
+				t := e.b.clip(e.resolve(op, last, wm))
 				calls = append(calls, cf.App("Advance", cf.Z(t)))
+				if e.root[t] {
+					hist = append(hist, "target:a-match-of-the-query")
+				} else {
+					hist = append(hist, "target:not-a-match")
+				}
+				if op.M == 7 && len(e.lists) > 0 {
+					hist = append(hist, []string{"target:poi-next", "target:poi-second-next", "target:poi-last", "target:poi-first"}[((op.A%4)+4)%4])
+				}
 				dm, err = s.Advance(ctx, e.b.target(t))
 				wm = t
 				switch {
@@ -730,6 +992,31 @@ func (e *runEnv) run(c sctx, q query.Query, prog []Op) (cf.T, cf.T, []string, in
 	return cf.List(calls), cf.List(ress), hist, nret, d
 }
 
+// idShape: histogram bucket of the external-id alphabet
+func idShape(ids [][]byte) string {
+	if len(ids) == 0 {
+		return "fixed-length(d%03d)"
+	}
+	lens := map[int]bool{}
+	bin := false
+	for _, id := range ids {
+		lens[len(id)] = true
+		for _, c := range id {
+			if c < 0x20 || c >= 0x7f {
+				bin = true
+			}
+		}
+	}
+	s := "one-length"
+	if len(lens) > 1 {
+		s = "varying-length"
+	}
+	if bin {
+		s += "+bytes-0x00/high"
+	}
+	return s
+}
+
 func splitSegments(b *built, global []int64) []cf.T {
 	segs := make([][]int64, len(b.offs))
 	for _, g := range global {
@@ -761,8 +1048,16 @@ func exec(in In) vh.Result {
 	}
 	defer release(b)
 	c := sctx{b: b, opts: search.SearcherOptions{Score: in.Score}}
-	bq := in.Q.build()
+	bq := in.Q.build(b.name)
 	hist := []string{"kind:" + in.Kind, "engine:" + in.Corpus.Engine, "score:" + in.Score + "."}
+	if in.Corpus.Engine == "upsidedown" {
+		kv := in.Corpus.KV
+		if kv == "" {
+			kv = "gtreap"
+		}
+		hist = append(hist, "kv:"+kv)
+	}
+	hist = append(hist, "ids:"+idShape(b.ids))
 	if b.offs != nil {
 		hist = append(hist, fmt.Sprintf("segments:%d", min(len(b.offs), 6)))
 		if b.ndel > 0 {
@@ -824,7 +1119,7 @@ func exec(in In) vh.Result {
 		}
 		var leaves []cf.T
 		for _, k := range in.Q.Kids {
-			l, _, _, err := c.enumerate(k.build())
+			l, _, _, err := c.enumerate(k.build(b.name))
 			if err != nil {
 				return fail(err)
 			}
@@ -838,6 +1133,32 @@ func exec(in In) vh.Result {
 	default: // contract
 		env.cands = append(env.cands, enum...)
 		caseOf = func(prog, ress cf.T) cf.T { return cf.App("CContract", zlist(enum), prog, ress) }
+	}
+	// points of interest for Advance targets
+	env.root = map[int64]bool{}
+	for _, x := range enum {
+		env.root[x] = true
+	}
+	if dd := vh.Guard(60*time.Second, "points of interest", func() {
+		err = c.poi(in.Q, func(l []int64) {
+			if len(l) > 0 {
+				env.lists = append(env.lists, l)
+				env.cands = append(env.cands, l...)
+			}
+		})
+	}); dd != nil {
+		return vh.Result{Direct: dd}
+	}
+	if err != nil {
+		return fail(err)
+	}
+	if b.keys != nil {
+		inner := caseOf
+		// one number per key: the bytes in base 256 under a leading 1 (MachCorr.key_num)
+		keys := cf.ListOf(b.keys, func(k []byte) cf.T {
+			return cf.T(new(big.Int).SetBytes(append([]byte{1}, k...)).String())
+		})
+		caseOf = func(prog, ress cf.T) cf.T { return cf.App("CKeyed", keys, inner(prog, ress)) }
 	}
 	sort.Slice(env.cands, func(i, j int) bool { return env.cands[i] < env.cands[j] })
 	for _, x := range env.cands {
@@ -866,8 +1187,82 @@ func exec(in In) vh.Result {
 
 // ---------------------------------------------------------------- generation
 
-func genCorpus(r *vrand.R, engine string, ndocs int) Corpus {
+// genIDs: an external-id table for document numbers 0..n-1.
+//
+//	num: a prefix and an unpadded number (a1 a10 a11 a2 ...): different lengths, bytewise order
+//	     differs from numeric order
+//	var: strings of 1-4 bytes over a small alphabet with 0x00, 0x01, 0x7f, 0x80, 0xfe, grown so
+//	     that many ids are proper prefixes of other ids
+func genIDs(r *vrand.R, scheme string, n int) []string {
+	seen := map[string]bool{}
+	var out []string
+	put := func(id []byte) bool {
+		if len(id) == 0 || seen[string(id)] {
+			return false
+		}
+		seen[string(id)] = true
+		out = append(out, hex.EncodeToString(id))
+		return true
+	}
+	switch scheme {
+	case "num":
+		var pool []int
+		for k := 0; k <= 12; k++ {
+			pool = append(pool, k)
+		}
+		for k := 95; k <= 135; k++ {
+			pool = append(pool, k)
+		}
+		if r.Bool() {
+			for k := 1000; k <= 1003; k++ {
+				pool = append(pool, k)
+			}
+		}
+		vrand.Shuffle(r, pool)
+		pre := vrand.Pick(r, []string{"a", "doc-", "7"})
+		for _, k := range pool {
+			if len(out) < n {
+				put([]byte(fmt.Sprintf("%s%d", pre, k)))
+			}
+		}
+	default:
+		alpha := []byte{'a', 'a', 'b', 'c', '0', '1', 0x00, 0x00, 0x01, 0x7f, 0x80, 0xfe}
+		var made [][]byte
+		for len(out) < n {
+			var id []byte
+			if len(made) > 0 && r.Chance(3, 5) {
+				base := made[r.Intn(len(made))]
+				if len(base) < 4 {
+					id = append(append([]byte{}, base...), alpha[r.Intn(len(alpha))])
+				}
+			}
+			if id == nil {
+				for k := r.Range(1, 3); k > 0; k-- {
+					id = append(id, alpha[r.Intn(len(alpha))])
+				}
+			}
+			if put(id) {
+				made = append(made, id)
+			}
+		}
+	}
+	return out
+}
+
+const idUniverse = 48 // document numbers a query may mention (doc-id queries name up to 45)
+
+// genCorpus: engine is scorch-mem | scorch-disk | upsidedown | upsidedown/boltdb | upsidedown/moss;
+// ids is "" (d%03d) | num | var (on scorch the external ids only reach the doc-id searcher, on
+// upsidedown they ARE the internal ids)
+func genCorpus(r *vrand.R, engine, ids string, ndocs int) Corpus {
 	c := Corpus{Engine: engine}
+	if i := strings.Index(engine, "/"); i >= 0 {
+		c.Engine, c.KV = engine[:i], engine[i+1:]
+	}
+	engine = c.Engine
+	if ids != "" {
+		c.IDs = genIDs(r, ids, idUniverse)
+	}
 	nb := r.Range(2, 6)
 	if engine == "scorch-disk" {
 		nb = r.Range(3, 6)
@@ -897,7 +1292,7 @@ func genCorpus(r *vrand.R, engine string, ndocs int) Corpus {
 			}
 		}
 		op.F = append(op.F, rare[id]...)
-		for k := r.Range(0, 5); k > 0; k-- {
+		for k := r.Range(0, 8); k > 0; k-- {
 			op.T = append(op.T, r.Intn(len(words)))
 		}
 		op.G = []float64{float64(r.Range(-8, 8)), float64(r.Range(-8, 8))}
@@ -932,8 +1327,50 @@ func genCorpus(r *vrand.R, engine string, ndocs int) Corpus {
 
 func termQ(r *vrand.R) *Q { return &Q{K: "term", Term: r.Intn(len(vocab))} }
 
+// phraseQ: a phrase-family leaf on the text field: match-phrase of 2-3 words (PhraseSearcher),
+// or a multi-phrase with alternatives at some position
+func phraseQ(r *vrand.R) *Q {
+	w := func() int { return r.Intn(len(words)) }
+	if r.Chance(1, 3) {
+		q := &Q{K: "mphrase"}
+		for k := r.Range(2, 3); k > 0; k-- {
+			sl := []int{w()}
+			if r.Chance(1, 2) {
+				sl = append(sl, w())
+			}
+			q.Slots = append(q.Slots, sl)
+		}
+		return q
+	}
+	str := words[w()] + " " + words[w()]
+	if r.Chance(1, 5) {
+		str += " " + words[w()]
+	}
+	return &Q{K: "phrase", Str: str}
+}
+
+// multiTermQ: leaves the query package turns into multi-term / range searchers
+func multiTermQ(r *vrand.R) *Q {
+	switch r.Intn(7) {
+	case 0:
+		return &Q{K: "prefix", Str: vrand.Pick(r, []string{"x", "xa", "z", "y"})}
+	case 1:
+		return &Q{K: "fuzzy", Str: vrand.Pick(r, []string{"xa", "xbb", "zc", "yc"})}
+	case 2:
+		return &Q{K: "regexp", Str: vrand.Pick(r, []string{"x[ab]+", "z.", "y.*"})}
+	case 3:
+		return &Q{K: "wildcard", Str: vrand.Pick(r, []string{"x*", "z?", "*b"})}
+	case 4:
+		return &Q{K: "termrange"}
+	case 5:
+		return &Q{K: "match", Str: words[r.Intn(len(words))] + " " + words[r.Intn(len(words))]}
+	}
+	lo := float64(r.Range(0, 6))
+	return &Q{K: "numrange", Lo: lo, Hi: lo + float64(r.Range(1, 5))}
+}
+
 func genLeafish(r *vrand.R) *Q {
-	switch r.Intn(10) {
+	switch r.Intn(14) {
 	case 0:
 		return &Q{K: "all"}
 	case 1:
@@ -944,6 +1381,12 @@ func genLeafish(r *vrand.R) *Q {
 		return &Q{K: "docids", IDs: ids}
 	case 2:
 		return &Q{K: "none"}
+	case 3, 4:
+		// searchers without a machine: a Leaf holding their own Next-only enumeration; the
+		// compound above them is still checked against its machine and the spec
+		return phraseQ(r)
+	case 5, 6:
+		return multiTermQ(r)
 	}
 	return termQ(r)
 }
@@ -1009,6 +1452,66 @@ func genTree(r *vrand.R, depth int) *Q {
 }
 
 func genProg(r *vrand.R, backward bool) []Op {
+	poi := func() Op {
+		op := Op{K: "A", M: 7, A: []int{0, 0, 0, 0, 1, 1, 2, 3}[r.Intn(8)], L: r.Intn(16)}
+		if r.Chance(1, 3) {
+			op.L = 0 // the query's own matches
+		}
+		return op
+	}
+	if !backward {
+		switch r.Intn(6) {
+		case 2:
+			// around segment boundaries (scorch; elsewhere M=4 falls back to lb+k): k x Next, an
+			// Advance to offset-1 / offset / offset+1 of a later segment, then a short tail
+			var p []Op
+			for k := r.Range(0, 4); k > 0; k-- {
+				p = append(p, Op{K: "N"})
+			}
+			p = append(p, Op{K: "A", M: 4, A: r.Range(0, 12)})
+			for k := r.Range(0, 3); k > 0; k-- {
+				switch r.Intn(3) {
+				case 0:
+					p = append(p, Op{K: "N"})
+				case 1:
+					p = append(p, Op{K: "A", M: 4, A: r.Range(0, 12)})
+				default:
+					p = append(p, Op{K: "A", M: r.Range(2, 3), A: r.Range(0, 4)})
+				}
+			}
+			return p
+		case 0:
+			// k x Next, then Advance exactly to the next entry of a list of interest (the next
+			// match, the next candidate of a subtree, ...), then a short tail
+			var p []Op
+			for k := r.Range(0, 5); k > 0; k-- {
+				p = append(p, Op{K: "N"})
+			}
+			a := poi()
+			a.A = 0
+			p = append(p, a)
+			for k := r.Range(0, 3); k > 0; k-- {
+				if r.Bool() {
+					p = append(p, Op{K: "N"})
+				} else {
+					p = append(p, poi())
+				}
+			}
+			return p
+		case 1:
+			// Advance as the first call: to the first / next / last entry of a list, then Next
+			a := poi()
+			a.A = []int{3, 3, 0, 2}[r.Intn(4)]
+			p := []Op{a}
+			for k := r.Range(0, 3); k > 0; k-- {
+				p = append(p, Op{K: "N"})
+			}
+			if r.Bool() {
+				p = append(p, poi())
+			}
+			return p
+		}
+	}
 	n := r.Range(1, 9)
 	p := make([]Op, n)
 	for i := range p {
@@ -1016,9 +1519,13 @@ func genProg(r *vrand.R, backward bool) []Op {
 			p[i] = Op{K: "N"}
 			continue
 		}
-		m := []int{0, 0, 0, 1, 1, 1, 2, 2, 3, 4, 4, 6}[r.Intn(12)]
+		m := []int{0, 0, 0, 1, 1, 2, 2, 3, 4, 4, 4, 6, 7, 7, 7, 7, 7, 7}[r.Intn(18)]
 		if backward && r.Chance(1, 3) {
 			p[i] = Op{K: "A", M: 5, A: r.Range(0, 50)}
+			continue
+		}
+		if m == 7 {
+			p[i] = poi()
 			continue
 		}
 		p[i] = Op{K: "A", M: m, A: r.Range(0, 12)}
@@ -1031,58 +1538,97 @@ func genProg(r *vrand.R, backward bool) []Op {
 }
 
 func unmodelled(r *vrand.R) *Q {
-	switch r.Intn(12) {
-	case 0:
-		return &Q{K: "prefix", Str: vrand.Pick(r, []string{"x", "xa", "z", "y"})}
-	case 1:
-		return &Q{K: "fuzzy", Str: vrand.Pick(r, []string{"xa", "xbb", "zc", "yc"})}
-	case 2:
-		return &Q{K: "regexp", Str: vrand.Pick(r, []string{"x[ab]+", "z.", "y.*"})}
-	case 3:
-		return &Q{K: "wildcard", Str: vrand.Pick(r, []string{"x*", "z?", "*b"})}
+	switch r.Intn(8) {
+	case 0, 1, 2, 3:
+		return multiTermQ(r)
 	case 4:
-		return &Q{K: "termrange"}
-	case 5:
-		return &Q{K: "phrase", Str: words[r.Intn(len(words))] + " " + words[r.Intn(len(words))]}
-	case 6:
-		return &Q{K: "match", Str: words[r.Intn(len(words))] + " " + words[r.Intn(len(words))]}
-	case 7:
-		lo := float64(r.Range(0, 6))
-		return &Q{K: "numrange", Lo: lo, Hi: lo + float64(r.Range(1, 5))}
-	case 8:
 		return &Q{K: "geobox", Lo: float64(r.Range(-8, 2)), Hi: float64(r.Range(-2, 8))}
-	case 9:
+	case 5:
 		return &Q{K: "geodist", Lo: float64(r.Range(-6, 6)), Hi: float64(r.Range(-6, 6))}
-	case 10:
+	case 6:
 		// a modelled compound over unmodelled children, checked as a contract only
 		return &Q{K: "conj", Kids: []*Q{{K: "prefix", Str: "x"}, {K: "numrange", Lo: 1, Hi: 8}}}
 	}
-	return &Q{K: "disj", Min: 1, Kids: []*Q{{K: "phrase", Str: words[r.Intn(len(words))] + " " + words[r.Intn(len(words))]}, {K: "fuzzy", Str: "xa"}}}
+	return &Q{K: "disj", Min: 1, Kids: []*Q{phraseQ(r), {K: "fuzzy", Str: "xa"}}}
+}
+
+// phraseTree: a phrase-family searcher as a clause of a conjunction / boolean / disjunction, next
+// to term clauses of the dense keyword field (so that the sibling's next document is regularly
+// the phrase searcher's own look-ahead candidate)
+func phraseTree(r *vrand.R) *Q {
+	ph := phraseQ(r)
+	switch r.Intn(6) {
+	case 0, 1:
+		ks := []*Q{ph, termQ(r)}
+		if r.Bool() {
+			ks[0], ks[1] = ks[1], ks[0]
+		}
+		return &Q{K: "conj", Kids: ks}
+	case 2:
+		return &Q{K: "bool", Must: []*Q{ph, termQ(r)}}
+	case 3:
+		return &Q{K: "bool", Must: []*Q{termQ(r)}, Should: []*Q{ph, termQ(r)}, MinShould: r.Range(0, 1), MustNot: []*Q{termQ(r)}}
+	case 4:
+		return &Q{K: "conj", Kids: []*Q{ph, phraseQ(r)}}
+	}
+	return &Q{K: "disj", Min: r.Range(1, 2), Kids: []*Q{ph, termQ(r), multiTermQ(r)}}
+}
+
+// the engine configurations a quick run cycles through (quick: 16 corpora = two rounds)
+var layouts = []struct{ engine, ids string }{
+	{"scorch-mem", ""}, {"upsidedown", "num"}, {"scorch-disk", "var"}, {"upsidedown/boltdb", "var"},
+	{"scorch-mem", "num"}, {"upsidedown/moss", "num"}, {"scorch-disk", ""}, {"upsidedown", "var"},
+	{"scorch-mem", "var"}, {"upsidedown/moss", "var"}, {"scorch-disk", "num"}, {"upsidedown", ""},
+	{"scorch-mem", ""}, {"upsidedown/boltdb", "num"}, {"scorch-mem", "num"}, {"upsidedown", "var"},
 }
 
 func gen(f vh.Flags, r *vrand.R, emit func(In)) {
-	engines := []string{"scorch-mem", "scorch-mem", "scorch-disk", "upsidedown"}
-	ncorp := f.N(12, 600)
+	ncorp := f.N(16, 480)
 	for ci := 0; ci < ncorp; ci++ {
-		eng := engines[ci%len(engines)]
-		corp := genCorpus(r, eng, r.Range(8, 40))
+		lay := layouts[ci%len(layouts)]
+		corp := genCorpus(r, lay.engine, lay.ids, r.Range(8, 40))
 		scores := []string{"", "none"}
-		// modelled trees
+		// modelled trees (leaves: term / doc-id / match-all / match-none and, as opaque leaves,
+		// phrase / multi-phrase / multi-term / range searchers)
 		for k := 0; k < 10; k++ {
 			q := genTree(r, 3)
-			if k < 2 {
+			switch {
+			case k < 2:
 				// the shape of the boolean Advance defect and of the heap takeover, every corpus
 				q = &Q{K: "bool", Must: []*Q{termQ(r)}, Should: []*Q{termQ(r), termQ(r)}, MinShould: 1 + k}
+			case k < 4:
+				q = phraseTree(r)
 			}
 			score := scores[k%2]
-			for p := 0; p < 3; p++ {
+			nprog := 3
+			if k >= 4 {
+				nprog = 2
+			}
+			for p := 0; p < nprog; p++ {
 				emit(In{Kind: "tree", Corpus: corp, Q: q, Score: score, Prog: genProg(r, false)})
 			}
 		}
-		// readers (scorch): term / doc-id / match-all, with backward targets for the term reader
+		// readers (scorch): term / doc-id / match-all, with backward targets for the term reader;
+		// upsidedown has no reader machine: its term field reader / doc-id reader / compounds of
+		// them are driven directly and judged by the cursor contract
+		udc := strings.HasPrefix(lay.engine, "upsidedown")
+		rk := func(kind string) string {
+			if udc {
+				return "contract"
+			}
+			return kind
+		}
 		for k := 0; k < 3; k++ {
-			emit(In{Kind: "tfr", Corpus: corp, Q: termQ(r), Score: scores[k%2], Prog: genProg(r, k > 0)})
-			emit(In{Kind: "did", Corpus: corp, Q: genLeafishDid(r), Prog: genProg(r, false)})
+			emit(In{Kind: rk("tfr"), Corpus: corp, Q: termQ(r), Score: scores[k%2], Prog: genProg(r, k > 0 && !udc)})
+			emit(In{Kind: rk("did"), Corpus: corp, Q: genLeafishDid(r), Prog: genProg(r, false)})
+		}
+		if !udc {
+			// the doc-id reader over every segment (match-all), and under a conjunction / a
+			// must-not-only boolean, where the parent chooses the targets
+			emit(In{Kind: "did", Corpus: corp, Q: &Q{K: "all"}, Prog: genProg(r, false)})
+			emit(In{Kind: "did", Corpus: corp, Q: &Q{K: "all"}, Prog: genProg(r, false)})
+			emit(In{Kind: "tree", Corpus: corp, Q: &Q{K: "conj", Kids: []*Q{termQ(r), {K: "all"}}}, Score: scores[ci%2], Prog: genProg(r, false)})
+			emit(In{Kind: "tree", Corpus: corp, Q: &Q{K: "bool", MustNot: []*Q{termQ(r)}}, Score: scores[ci%2], Prog: genProg(r, false)})
 		}
 		// unadorned AND / OR
 		for k := 0; k < 4; k++ {
@@ -1095,13 +1641,20 @@ func gen(f vh.Flags, r *vrand.R, emit func(In)) {
 			if k%2 == 1 {
 				q = &Q{K: "disj", Kids: qs, Min: r.Range(0, 1)}
 			}
-			emit(In{Kind: "una", Corpus: corp, Q: q, Score: "none", Prog: genProg(r, k >= 2)})
+			emit(In{Kind: rk("una"), Corpus: corp, Q: q, Score: "none", Prog: genProg(r, k >= 2 && !udc)})
 		}
-		// contract only
-		for k := 0; k < 8; k++ {
+		// contract only: bare phrase / multi-phrase searchers (two programs each), the other
+		// searchers without a machine, a bare term searcher, a doc-id searcher
+		for k := 0; k < 10; k++ {
 			q := unmodelled(r)
-			if k == 7 {
+			switch {
+			case k < 3:
+				q = phraseQ(r)
+				emit(In{Kind: "contract", Corpus: corp, Q: q, Score: scores[k%2], Prog: genProg(r, false)})
+			case k == 8:
 				q = termQ(r)
+			case k == 9:
+				q = genLeafishDid(r)
 			}
 			emit(In{Kind: "contract", Corpus: corp, Q: q, Score: scores[k%2], Prog: genProg(r, false)})
 		}
@@ -1127,29 +1680,36 @@ func genLeafishDid(r *vrand.R) *Q {
 	return &Q{K: "docids", IDs: ids}
 }
 
-// every forward program of length <= 4 over an id space of <= 6 documents
+// every forward program of length <= 4 over an id space of <= 6 documents; and, with targets
+// taken from the lists of interest as well (next / second-next entry of the query's own matches and
+// of two sub-lists), every program of length <= 3 over phrase searchers, bare and composed, and
+// over upsidedown with ids of varying length
 func genExhaustive(r *vrand.R, emit func(In)) {
 	alphabet := []Op{{K: "N"}}
 	for a := 0; a <= 6; a++ {
 		alphabet = append(alphabet, Op{K: "A", M: 0, A: a})
 	}
-	var progs [][]Op
-	var rec func(p []Op, n int)
-	rec = func(p []Op, n int) {
-		if len(p) > 0 {
-			progs = append(progs, append([]Op(nil), p...))
+	all := func(alphabet []Op, n int) [][]Op {
+		var progs [][]Op
+		var rec func(p []Op, n int)
+		rec = func(p []Op, n int) {
+			if len(p) > 0 {
+				progs = append(progs, append([]Op(nil), p...))
+			}
+			if n == 0 {
+				return
+			}
+			for _, o := range alphabet {
+				rec(append(p, o), n-1)
+			}
 		}
-		if n == 0 {
-			return
-		}
-		for _, o := range alphabet {
-			rec(append(p, o), n-1)
-		}
+		rec(nil, n)
+		return progs
 	}
-	rec(nil, 4)
+	progs := all(alphabet, 4)
 	for _, eng := range []string{"scorch-mem", "upsidedown"} {
 		for ci := 0; ci < 2; ci++ {
-			corp := genCorpus(r, eng, 6)
+			corp := genCorpus(r, eng, "", 6)
 			qs := []*Q{
 				{K: "conj", Kids: []*Q{termQ(r), termQ(r)}},
 				{K: "disj", Min: 1, Kids: []*Q{termQ(r), termQ(r), termQ(r)}},
@@ -1158,6 +1718,33 @@ func genExhaustive(r *vrand.R, emit func(In)) {
 			for _, q := range qs {
 				for _, p := range progs {
 					emit(In{Kind: "tree", Corpus: corp, Q: q, Prog: p})
+				}
+			}
+		}
+	}
+	alphabet2 := []Op{{K: "N"}, {K: "A", M: 0, A: 0}, {K: "A", M: 0, A: 1}, {K: "A", M: 0, A: 3},
+		{K: "A", M: 7, L: 0, A: 0}, {K: "A", M: 7, L: 0, A: 1}, {K: "A", M: 7, L: 1, A: 0},
+		{K: "A", M: 7, L: 2, A: 0}, {K: "A", M: 7, L: 3, A: 0}}
+	progs2 := all(alphabet2, 3)
+	for _, lay := range []struct{ engine, ids string }{{"scorch-mem", ""}, {"upsidedown", "num"}, {"upsidedown/moss", "var"}, {"upsidedown/boltdb", "num"}} {
+		for ci := 0; ci < 1; ci++ {
+			corp := genCorpus(r, lay.engine, lay.ids, 12)
+			ph := &Q{K: "phrase", Str: words[ci] + " " + words[ci+1]}
+			qs := []*Q{
+				ph,
+				{K: "mphrase", Slots: [][]int{{ci, ci + 2}, {ci + 1}}},
+				{K: "conj", Kids: []*Q{ph, termQ(r)}},
+				{K: "bool", Must: []*Q{termQ(r)}, Should: []*Q{ph, termQ(r)}, MinShould: 1},
+				termQ(r),
+				{K: "conj", Kids: []*Q{termQ(r), termQ(r)}},
+			}
+			for qi, q := range qs {
+				kind := "tree"
+				if qi < 2 || qi == 4 {
+					kind = "contract"
+				}
+				for _, p := range progs2 {
+					emit(In{Kind: kind, Corpus: corp, Q: q, Prog: p})
 				}
 			}
 		}
@@ -1172,11 +1759,12 @@ func main() {
 		CaseType:  "MachCorr.case",
 		CheckFn:   "MachCorr.check",
 		ExplainFn: "MachCorr.explain",
-		Rule: "corpora of 8-40 documents (13-word keyword field, text/numeric/geo fields) indexed in 2-6 batches with updates and deletes on scorch (in memory, on disk) and upsidedown; " +
-			"query trees to depth 3 of term / doc-id / match-all / match-none leaves under conjunction, disjunction (1-13 children, min 0-2), boolean (must/should/must-not/min_should/filter), score default and none; " +
-			"kinds: tree (machine + spec), tfr / did (scorch readers with segment offsets; tfr also backward targets), una (unadorned AND/OR), contract (prefix, fuzzy, regexp, wildcard, term range, phrase, match, numeric range, geo, compounds over them); " +
-			"programs of 1-12 Next/Advance calls, targets relative to the last returned id: +k, at / just after / just before an existing posting, at segment offsets, beyond the last id, as first call and after exhaustion; " +
+		Rule: "corpora of 8-40 documents (13-word keyword field, text of 0-8 words out of 6, numeric/geo fields) indexed in 2-6 batches with updates and deletes on scorch (in memory, on disk) and upsidedown over gtreap, boltdb and moss; " +
+			"external ids d%03d, or prefix+unpadded number (a1 a10 a11 a2), or 1-4 byte strings that are prefixes of each other with 0x00/0x01/0x7f/0x80/0xfe bytes (on upsidedown these are the internal ids: a CKeyed case names ids by their index in a key table that Coq re-checks to be strictly ascending bytewise; Advance targets also between ids: id+0x00, a proper prefix, a string with 0xff bytes just below, the empty string, above everything); " +
+			"query trees to depth 3 of term / doc-id / match-all / match-none leaves and, as opaque leaves, phrase / multi-phrase / match / prefix / fuzzy / regexp / wildcard / term-range / numeric-range searchers, under conjunction, disjunction (1-13 children, min 0-2), boolean (must/should/must-not/min_should/filter), score default and none; phrase searchers as clauses of conjunctions / booleans / disjunctions next to dense term clauses; " +
+			"kinds: tree (machine + spec), tfr / did (scorch readers with segment offsets; tfr also backward targets), una (unadorned AND/OR), contract (bare phrase / multi-phrase searchers, upsidedown term-field and doc-id readers, prefix, fuzzy, regexp, wildcard, term range, match, numeric range, geo, compounds over them); " +
+			"programs of 1-12 Next/Advance calls, targets relative to the last returned id: +k, at / just after / just before an existing posting, at segment offsets, beyond the last id, as first call and after exhaustion, and exactly at the next / second-next / last / first entry of a list of interest (Next-only enumerations of real searchers for the query, each of its subtrees, each phrase term and the all-terms candidate conjunction of a phrase), in particular k x Next then Advance(next entry); " +
 			"non-trivial: the program contains an Advance and the searcher returned at least one id",
-		ShardSize: 150,
+		ShardSize: 100,
 	}, gen, exec)
 }
